@@ -572,6 +572,9 @@ pub fn quats(r: &mut Sm, malformed: bool) -> Vec<[f64; 4]> {
         unitq(1.0, 1.0, 1.0, 1.0),
         unitq(-1.0, -1.0, -1.0, -1.0),
         rot_x(1e-8),
+        rot_x(3e-5),
+        rot_x(8e-5),
+        rot_x(2e-3),
         rot_x(0.03),
         rot_x(0.0632),  // dot with identity just above 0.9995
         rot_x(0.0633),  // just below
@@ -1273,6 +1276,15 @@ pub fn oracle_interp(sp: &Sp, real: &RealSp, a: &St, b: &St, t: f64, out: &mut V
     if (drb - (1.0 - t) * dab).abs() > tl {
         out.push(finding("C10", "not_constant_speed_to", format!("{sp:?}: d(interp(a,b,{t}), b) = {drb}, expected {} (a = {a:?}, b = {b:?})", (1.0 - t) * dab)));
     }
+    // the same law seen from the planners: the steering step interpolate(near, sample, max/d) must land max away from
+    // `near` (C05), and the states check_motion samples at k/n must be d/n apart (C03) - an interpolated state that is
+    // farther along than its parameter says breaks both
+    if dar - t * dab > tl {
+        out.push(finding("C05", "steer_overshoot", format!("{sp:?}: a step of length {} from a towards b lands {dar} away from a (a = {a:?}, b = {b:?}, t = {t})", t * dab)));
+    }
+    if dar - t * dab > tl || drb - (1.0 - t) * dab > tl {
+        out.push(finding("C03", "interpolation_spacing", format!("{sp:?}: interpolate(a,b,{t}) is {dar} from a and {drb} from b although d(a,b) = {dab}: states sampled along the motion are farther apart than the resolution assumes (a = {a:?}, b = {b:?})")));
+    }
     if canonical(sp, a) && canonical(sp, b) && !canonical(sp, &r) {
         out.push(finding("C10", "result_not_canonical", format!("{sp:?}: interp({a:?},{b:?},{t}) = {r:?}")));
     }
@@ -1423,6 +1435,10 @@ pub fn oracle_bounds(sp: &Sp, real: &RealSp, s: &St, out: &mut Vec<Finding>) {
         Sp::Rv { .. } => "rv",
         Sp::So2 { bounds: Some((lo, hi)), .. } if hi.min(PI) >= PI && lo.max(-PI) > -PI => "so2_upper_pi",
         Sp::So2 { .. } => "so2",
+        // a space without an effective bound (no cone, or a cone of radius >= PI) contains every rotation: a rejection
+        // there has nothing to do with the recorded rounding-at-the-boundary findings
+        Sp::So3 { bounds: None, .. } => "so3_unbounded",
+        Sp::So3 { bounds: Some((_, m)), .. } if *m >= PI => "so3_unbounded",
         Sp::So3 { .. } => "so3",
         _ => if has_so3(sp) { "compound_with_so3" } else { "compound" },
     };
